@@ -28,6 +28,18 @@ CLAIMS = {
              "documented in Props/C10.lean.",
         tech="Lean 4 proof (generalised scan-state induction) + exhaustive-small differential correspondence",
         ref="DESIGN.md §7 C10"),
+    "C15": dict(
+        text="Lean theorem prep_selects: for every well-nested arrangement of #define/#ifdef/#ifndef/#else/#endif at any depth, "
+             "the tokens the preprocessor model delivers to the parser are exactly those of the declarative reference evaluation "
+             "(macro defined only by an earlier enabled #define), no preprocessor Error token, nothing from disabled regions "
+             "(disabled_skips for any depth); missing_name_* theorems; eat_refine proves the concrete model Src.eat is the abstract "
+             "machine over the lexer token stream. UnterminatedReported is false on the current tree (witness theorem, known "
+             "finding). Tied to preprocessor.rs by exhaustive correspondence over all directive sequences <= 4 (quick) / <= 6 "
+             "(thorough) over two macro names and a marker, plus random nestings checked through the IDE layer.",
+        note="Model: Prep.lean/PrepSpec.lean vs preprocessor.rs. The hypothesis that directive text lexes into directive tokens is "
+             "discharged by correspondence, not by a theorem (C14).",
+        tech="Lean 4 proof (mutual structural induction over item trees + refinement to the concrete model) + exhaustive-small correspondence",
+        ref="DESIGN.md §7 C15"),
     "C20": dict(
         text="Lean theorems by `decide +kernel` over tables regenerated from completion.rs / lexer.rs / token_kind.rs / "
              "statement.rs / type.rs on every run: keywords_lex, types_lex, values_lex, statement_arms_match, "
